@@ -150,3 +150,118 @@ Proof.
   { eapply Forall_impl; [|exact Hall]. intros kx [_ Hx]. exact Hx. }
   exists qs. split; [exact Tq|]. unfold btable_of, somes_pairs. apply tf_table; assumption.
 Qed.
+
+Lemma tf_entries kt vt : TF vt -> is_opt vt = false -> forall es xs,
+  forallb (fun kv => has_type_b kt (fst kv) && has_type_b vt (snd kv)) es = true ->
+  ser_entries kt vt es = Ok (map Some xs) ->
+  Forall (fun kx : bytes * tomlval => tunnel_free (snd kx) = true) xs ->
+  exists qs, tv_entries kt vt es = Ok (map Some qs) /\ Forall2 conv_rel xs qs.
+Proof.
+  intros IHv Hno. unfold ser_entries, tv_entries.
+  induction es as [|[k v] es IH]; intros xs Hty H Hf; simpl in *.
+  - destruct xs; [|discriminate]. exists []. split; [reflexivity|constructor].
+  - apply andb_true_iff in Hty as [Hkv Hes]. apply andb_true_iff in Hkv as [Hk Hv].
+    apply rbind_ok in H as (p & Hp & H). apply rbind_ok in H as (ps' & Hps & H).
+    destruct xs as [|[s x] xs]; [discriminate|]. simpl in H. injection H as -> ->.
+    apply rbind_ok in Hp as (s0 & Hs & Hp). apply rmap_ok in Hp as (ox & Hox & E).
+    destruct (ser_map_value_cases ser_value vt v) as [(t' & -> & _)|[_ E']]; [discriminate|]. rewrite E' in Hox.
+    apply rmap_ok in Hox as (x0 & Hx & ->). simpl in E. injection E as Es Ex. subst s x.
+    inversion Hf as [|? ? Hfx Hf']; subst. simpl in Hfx.
+    destruct (tv_key_roundtrip kt k _ Hk Hs) as [K1 _].
+    destruct (IHv v _ Hv Hx Hfx) as (y & C & T).
+    destruct (IH xs Hes Hps Hf') as (qs & Tq & Fq).
+    eexists ((_, y) :: qs). rewrite K1. simpl. rewrite T. simpl. rewrite Tq. simpl.
+    split; [reflexivity|constructor; [split; [reflexivity|exact C]|exact Fq]].
+Qed.
+
+Theorem try_from_twin : forall t, TF t.
+Proof.
+  induction t using ty_ind2 with (Q := TFV); unfold TF, TFV in *.
+  - intros v x Hty Hser Hf. destruct v; simpl in Hser; try discriminate Hser. injection Hser as <-. eexists; split; reflexivity.
+  - intros v x Hty Hser Hf. destruct v; simpl in Hser; try discriminate Hser. simpl in Hty.
+    unfold ser_int_value in Hser. destruct (ser_int w z) as [i|] eqn:E; [|discriminate Hser]. injection Hser as <-.
+    destruct (ser_exact w z i Hty E) as [-> _]. exists (VInt z). split; [reflexivity|].
+    simpl. unfold ser_int, tv_ser_int in *. destruct (ser_method_of w); try discriminate E; try reflexivity.
+    unfold serialize_u64 in E. unfold tv_serialize_u64. destruct (fits_i64 z); [reflexivity|discriminate E].
+  - intros v x Hty Hser Hf. destruct w; destruct v; simpl in Hser; try discriminate Hser; injection Hser as <-; eexists; split; reflexivity.
+  - intros v x Hty Hser Hf. destruct v; simpl in Hser; try discriminate Hser. injection Hser as <-. eexists; split; reflexivity.
+  - intros v x Hty Hser Hf. destruct v; simpl in Hser; try discriminate Hser. injection Hser as <-. eexists; split; reflexivity.
+  - (* a date-time: excluded by tunnel_free *)
+    intros v x Hty Hser Hf. destruct v; simpl in Hser; try discriminate Hser. unfold ser_datetime in Hser.
+    apply rmap_ok in Hser as (d' & _ & ->). simpl in Hf. discriminate Hf.
+  - intros v x Hty Hser Hf. destruct v; simpl in Hser; discriminate Hser.
+  - intros v x Hty Hser Hf. destruct v; simpl in Hser; discriminate Hser.
+  - intros v x Hty Hser Hf. destruct v; try (simpl in Hser; discriminate Hser).
+    rewrite sv_opt_some in Hser. rewrite ht_opt_some in Hty. rewrite ts_opt_some. apply IHt; assumption.
+  - intros v x Hty Hser Hf. destruct v; try (simpl in Hser; discriminate Hser).
+    rewrite sv_seq in Hser. rewrite ht_seq in Hty. apply rmap_ok in Hser as (xs & Hxs & ->). simpl in Hf.
+    destruct (tf_list t IHt vs xs Hty Hxs Hf) as (ys & C & T).
+    exists (VArr ys). rewrite ttv_arr, C, ts_seq, T. split; reflexivity.
+  - intros v x Hty Hser Hf. destruct v; try (simpl in Hser; discriminate Hser).
+    rewrite sv_tuple in Hser. rewrite ht_tuple in Hty. apply rmap_ok in Hser as (xs & Hxs & ->). simpl in Hf.
+    destruct (tf_tuple ts H vs xs Hty Hxs Hf) as (ys & C & T).
+    exists (VArr ys). rewrite ttv_arr, C, ts_tuple, T. split; reflexivity.
+  - (* TMap *)
+    intros v x Hty Hser Hf. destruct v; try (simpl in Hser; discriminate Hser).
+    rewrite ht_map in Hty. apply andb_true_iff in Hty as [Hty Hnd]. apply andb_true_iff in Hty as [Hno Hes].
+    apply negb_true_iff in Hno. apply nodup_bytes_NoDup in Hnd.
+    rewrite sv_map in Hser. apply rmap_ok in Hser as (ps & Hps & ->).
+    destruct (rt_entries t1 t2 (roundtrip_value t2) Hno es ps Hes Hps) as (xs & -> & F).
+    assert (Hk : somes (map (fun kv => key_text t1 (fst kv)) es) = map fst xs).
+    { apply (entries_keys t1 es xs (fun kv kx => de_key t1 (fst kx) = Ok (fst kv) /\ sval_eq (fst kv) (fst kv) /\
+                                      exists v', de_value t2 (snd kx) = Ok v' /\ sval_eq (snd kv) v')). exact F. }
+    rewrite Hk in Hnd. unfold table_of, somes_pairs in *. rewrite somes_map_Some in *.
+    rewrite (tab_of_pairs_nodup xs Hnd) in *.
+    destruct (tunnel_free_tab _ Hf) as [_ Hall].
+    destruct (tf_entries t1 t2 IHt2 Hno es xs Hes Hps) as (qs & Tq & Fq).
+    { eapply Forall_impl; [|exact Hall]. intros kx [_ Hx]. exact Hx. }
+    exists (VTab (btree_of_pairs qs)). split; [apply tf_table; assumption|].
+    rewrite ts_map, Tq. unfold btable_of, somes_pairs. simpl. rewrite somes_map_Some. reflexivity.
+  - (* TStruct *)
+    intros v x Hty Hser Hf. destruct v; try (simpl in Hser; discriminate Hser).
+    rewrite ht_struct in Hty. apply andb_true_iff in Hty as [Hty Hvs]. apply andb_true_iff in Hty as [Hpriv Hnd].
+    apply negb_true_iff in Hpriv. rewrite sv_struct, (private_not_dt n Hpriv) in Hser.
+    apply rmap_ok in Hser as (ps & Hps & ->).
+    destruct (tf_struct_fields fs H vs ps Hnd Hvs Hps Hf) as (qs & Tq & C).
+    exists (btable_of qs). split; [exact C|]. rewrite ts_struct, Tq. reflexivity.
+  - intros v x Hty Hser Hf. destruct v; try (simpl in Hser; discriminate Hser).
+    rewrite sv_newtype in Hser. rewrite ht_newtype in Hty. rewrite ts_newtype. apply IHt; assumption.
+  - intros v x Hty Hser Hf. destruct v; try (simpl in Hser; discriminate Hser).
+    rewrite sv_tuple_struct in Hser. rewrite ht_tuple_struct in Hty. apply rmap_ok in Hser as (xs & Hxs & ->). simpl in Hf.
+    destruct (tf_tuple ts H vs xs Hty Hxs Hf) as (ys & C & T).
+    exists (VArr ys). rewrite ttv_arr, C, ts_tuple_struct, T. split; reflexivity.
+  - (* TEnum *)
+    intros v x Hty Hser Hf. destruct v as [| | | | | | | | | | | | | |i p]; try (simpl in Hser; discriminate Hser).
+    rewrite ht_enum in Hty. apply andb_true_iff in Hty as [_ Hp]. rewrite sv_enum in Hser.
+    destruct (pick_cases (ser_variant p) (Err EBadCase) vs i) as [([vn var] & Hn & E)|[_ E]]; rewrite E in Hser; [|discriminate].
+    rewrite (pick_nth _ _ _ _ _ Hn) in Hp. simpl in Hp.
+    assert (HQ : forall q y, has_type_variant_b var q = true -> ser_payload var q = Ok y -> tunnel_free y = true ->
+                             exists z, to_toml_value y = Ok z /\ tv_payload var q = Ok z).
+    { rewrite Forall_forall in H. apply (H (vn, var)). eapply nth_error_In; exact Hn. }
+    rewrite ts_enum, (pick_nth _ _ _ _ _ Hn). unfold ser_variant in Hser. unfold tv_variant. simpl in *.
+    destruct var as [|tv|tsv|fsv].
+    + apply htv_unit in Hp. subst p. injection Hser as <-. eexists; split; reflexivity.
+    + apply rmap_ok in Hser as (y & Hy & ->).
+      destruct (tunnel_free_tab _ Hf) as [Hfirst Hall]. inversion Hall as [|? ? [Hk Hfy] _]; subst. simpl in *.
+      destruct (HQ p y Hp Hy Hfy) as (z & C & T). exists (VTab [(vn, z)]). rewrite T. split; [|reflexivity].
+      rewrite Hk. rewrite C. reflexivity.
+    + apply rmap_ok in Hser as (y & Hy & ->).
+      destruct (tunnel_free_tab _ Hf) as [Hfirst Hall]. inversion Hall as [|? ? [Hk Hfy] _]; subst. simpl in *.
+      destruct (HQ p y Hp Hy Hfy) as (z & C & T). exists (VTab [(vn, z)]). rewrite T. split; [|reflexivity].
+      rewrite Hk. rewrite C. reflexivity.
+    + apply rmap_ok in Hser as (y & Hy & ->).
+      destruct (tunnel_free_tab _ Hf) as [Hfirst Hall]. inversion Hall as [|? ? [Hk Hfy] _]; subst. simpl in *.
+      destruct (HQ p y Hp Hy Hfy) as (z & C & T). exists (VTab [(vn, z)]). rewrite T. split; [|reflexivity].
+      rewrite Hk. rewrite C. reflexivity.
+  - intros p x Hty Hser Hf. simpl in Hser. discriminate Hser.
+  - intros p x Hty Hser Hf. rewrite sp_newtype in Hser. rewrite htv_newtype in Hty. rewrite tp_newtype. apply IHt; assumption.
+  - intros p x Hty Hser Hf. destruct p; try (simpl in Hty; discriminate Hty).
+    rewrite sp_tuple in Hser. rewrite htv_tuple in Hty. apply rmap_ok in Hser as (xs & Hxs & ->). simpl in Hf.
+    destruct (tf_tuple ts H vs xs Hty Hxs Hf) as (ys & C & T).
+    exists (VArr ys). rewrite ttv_arr, C, tp_tuple, T. split; reflexivity.
+  - intros p x Hty Hser Hf. destruct p; try (simpl in Hty; discriminate Hty).
+    rewrite htv_struct in Hty. apply andb_true_iff in Hty as [Hnd Hvs].
+    rewrite sp_struct in Hser. apply rmap_ok in Hser as (ps & Hps & ->).
+    destruct (tf_struct_fields fs H vs ps Hnd Hvs Hps Hf) as (qs & Tq & C).
+    exists (btable_of qs). split; [exact C|]. rewrite tp_struct, Tq. reflexivity.
+Qed.
